@@ -183,6 +183,48 @@ def gen_fork_scenario(rng):
     return {"ver": 1, "bpcount": 3, "start": 1, "accounts": accounts, "ops": ops}
 
 
+def gen_param_scenario(rng):
+    """directed: two (or three) parameter votes on the SAME parameter that each reach the 2/3
+    threshold, inside one block or across a block boundary: the second equal to the value currently
+    in effect / equal to the first / a third value.  A (all of the stake) votes v1; newcomer C stakes
+    most of the new total and casts its first vote for v2 (so both tallies pass in turn); after the
+    boundary a small stake probes which minimum the running node applies; restarts in between."""
+    pid = rng.choice(["STAKINGMIN", "STAKINGMIN", "GASPRICE", "NAMEPRICE", "BPCOUNT"])
+    cur = {"STAKINGMIN": S, "GASPRICE": 5 * 10 ** 10, "NAMEPRICE": 10 ** 18, "BPCOUNT": 3}[pid]
+    other = {"STAKINGMIN": [10 ** 18, 5 * 10 ** 18, S // 2], "GASPRICE": [6 * 10 ** 10, 1], "NAMEPRICE": [2 * 10 ** 18, 7], "BPCOUNT": [5, 13]}[pid]
+    v1 = rng.choice(other)
+    v2 = rng.choice([cur, cur, v1, rng.choice(other)])
+    accounts = [{"addr": addr(i).hex(), "bal": str(60 * S)} for i in range(4)]
+    ops, no = [], 1
+    ops += [{"op": "stake", "who": 0, "amt": str(3 * S)}, {"op": "block", "no": 2}]
+    no = 2
+    ops.append({"op": "votedao", "who": 0, "id": pid, "val": [str(v1)]})
+    if rng.random() < 0.35:                  # the second vote in a later block
+        no += 1
+        ops.append({"op": "block", "no": no})
+        if rng.random() < 0.4:
+            ops.append({"op": "reload"})
+    ops.append({"op": "stake", "who": 2, "amt": str(10 * S)})
+    if rng.random() < 0.3:
+        no += 1
+        ops.append({"op": "block", "no": no})
+    ops.append({"op": "votedao", "who": 2, "id": pid, "val": [str(v2)]})
+    if rng.random() < 0.4:                   # a third passing vote in the same block
+        ops.append({"op": "stake", "who": 3, "amt": str(40 * S)})
+        ops.append({"op": "votedao", "who": 3, "id": pid, "val": [str(rng.choice([cur, v1, v2] + other))]})
+    no += 1
+    ops.append({"op": "block", "no": no})
+    # probes: which staking minimum does the running node apply now?
+    ops.append({"op": "stake", "who": 1, "amt": str(5 * 10 ** 18)})
+    ops.append({"op": "stake", "who": 1, "amt": str(S)})
+    no += 1
+    ops.append({"op": "block", "no": no})
+    ops.append({"op": "reload"})
+    ops.append({"op": "stake", "who": 1, "amt": str(6 * 10 ** 18)})
+    ops.append({"op": "block", "no": no + 1})
+    return {"ver": rng.choice([2, 3, 4]), "bpcount": 3, "start": 1, "accounts": accounts, "ops": ops}
+
+
 def exhaustive_family(length=3):
     """thorough tier: after a fixed prefix (two stakers who voted, lock periods over) every
     sequence of `length` operations over a 9-letter alphabet (partial/full unstakes that shrink
